@@ -387,5 +387,250 @@ theorem runBody_tok {cert : Cert} (hs : SinkSafe env.ops W inp U1) (hs2 : SinkSa
       · cases hsucc
     · cases hsucc
 
+
+/-! ### re-basing at a break -/
+
+theorem RangeOK.rebase {ls hi : Nat} {r : Range} (h : RangeOK ls hi 0 r) : RangeOK 0 (hi - ls) 0 (r.align ls) := by
+  obtain ⟨h1, h2, h3⟩ := h
+  refine ⟨?_, ?_, Or.inl (Nat.zero_le _)⟩ <;> (simp only [Range.align, alignNat]; (repeat' split) <;> omega)
+
+theorem RangeM.rebase {ls hi k : Nat} {r : Range} (h : RangeM ls hi k r) : RangeM 0 (hi - ls) k (r.align ls) := by
+  obtain ⟨h1, h2, h3⟩ := h
+  refine ⟨?_, ?_, Nat.zero_le _⟩ <;> (simp only [Range.align, alignNat]; (repeat' split) <;> omega)
+
+theorem AttrOK.rebase {ls hi : Nat} {x : AttrOutline} (h : AttrOK ls hi x) : AttrOK 0 (hi - ls) (x.align ls) :=
+  ⟨h.1.rebase, h.2.rebase⟩
+
+theorem TagOK.rebase {ls hi : Nat} {o : TagOutline} (h : TagOK ls hi o) : TagOK 0 (hi - ls) (o.align ls) := by
+  cases o with
+  | startTag n hsh ns as sc =>
+    refine ⟨h.1.rebase, fun y hy => ?_⟩
+    simp only [List.mem_map] at hy
+    obtain ⟨y0, hy0, rfl⟩ := hy
+    exact (h.2 y0 hy0).rebase
+  | endTag n hsh => exact RangeOK.rebase h
+
+theorem TagOutline.align_isStart (o : TagOutline) (k : Nat) : (o.align k).isStart = o.isStart := by
+  cases o <;> rfl
+
+theorem TokL.rebase {a : AbsL} {ls hi : Nat} {l : LexRegs} (h : TokL a ls hi l) (hl : ls ≤ hi) :
+    TokL a 0 (hi - ls)
+      { l with tokenPartStart := alignNat l.tokenPartStart ls, curTag := l.curTag.map (·.align ls),
+               curNonTag := l.curNonTag.map (·.align ls), curAttr := l.curAttr.map (·.align ls), lexemeStart := 0 } := by
+  obtain ⟨h1, h2, h3, h4⟩ := h
+  refine ⟨?_, ?_, ?_, ?_⟩
+  · cases ha : a.tag <;> simp only [ha, TokTag] at h1 ⊢
+    · rw [h1]; rfl
+    · obtain ⟨o, e1, e2, e3⟩ := h1
+      exact ⟨o.align ls, by rw [e1]; rfl, by rw [TagOutline.align_isStart]; exact e2, e3.rebase⟩
+    · obtain ⟨o, e1, e2, e3⟩ := h1
+      exact ⟨o.align ls, by rw [e1]; rfl, by rw [TagOutline.align_isStart]; exact e2, e3.rebase⟩
+  · cases ha : a.attr <;> simp only [ha, TokAttr] at h2 ⊢
+    · rw [h2]; rfl
+    · intro y hy
+      cases hc : l.curAttr with
+      | none => rw [hc] at hy; cases hy
+      | some y0 =>
+        rw [hc] at hy
+        simp only [Option.map_some, Option.some.injEq] at hy
+        subst hy
+        exact (h2 y0 hc).rebase
+  · cases ha : a.nt <;> simp only [ha, TokNT] at h3 ⊢
+    · rw [h3]; rfl
+    · intro r hr
+      cases hc : l.curNonTag with
+      | none => rw [hc] at hr; cases hr
+      | some o =>
+        rw [hc] at hr
+        cases o <;> simp only [Option.map_some, NonTagOutline.align, Option.some.injEq] at hr <;> try cases hr
+        rename_i r0
+        exact (h3 r0 hc).rebase
+    · intro r hr
+      cases hc : l.curNonTag with
+      | none => rw [hc] at hr; cases hr
+      | some o =>
+        rw [hc] at hr
+        cases o <;> simp only [Option.map_some, NonTagOutline.align, Option.some.injEq] at hr <;> try cases hr
+        rename_i r0
+        exact (h3 r0 hc).rebase
+  · intro ht
+    have := h4 ht
+    dsimp only
+    simp only [alignNat]
+    split <;> omega
+
+theorem break_tok {t : Table} (m : M κ) (hp : BreakPre t W inp.length m) {a : Abs}
+    (ht : TokM a (m.c.nextPos - 1) m) :
+    Inv (breakOnEndOfInput inp m).1.x.sim ∧ (breakOnEndOfInput inp m).1.c.state = m.c.state ∧
+    (breakOnEndOfInput inp m).1.c.entered = m.c.entered ∧
+    ((breakOnEndOfInput inp m).1.c.isLast = false →
+      TokM a (breakOnEndOfInput inp m).1.c.nextPos (breakOnEndOfInput inp m).1) := by
+  obtain ⟨b1, b2, sd, hsd, b3⟩ := hp
+  obtain ⟨htr, hinv⟩ := ht
+  cases m with
+  | mk c r x =>
+  cases r with
+  | lexer l =>
+    dsimp only at b1 b2 b3 hsd htr hinv
+    simp only [breakOnEndOfInput, consumedByteCount]
+    cases hl : c.isLast
+    · simp only [Bool.false_eq_true, if_false, adjustForNextInput]
+      rw [if_neg (by omega)]
+      refine ⟨hinv, rfl, rfl, fun _ => ⟨?_, hinv⟩⟩
+      exact TokL.rebase htr b3.2
+    · simp only [if_true]
+      rw [if_neg (by omega)]
+      exact ⟨hinv, rfl, rfl, fun h => by rw [hl] at h; cases h⟩
+  | scanner s =>
+    dsimp only at b1 b2 b3 hsd htr hinv
+    obtain ⟨c1, c2, c3⟩ := b3
+    cases hts : s.tagStart with
+    | none =>
+      have hcons : ∀ k, ¬ (c.nextPos = 0 ∨ c.nextPos - 1 < k) → True := fun _ _ => trivial
+      have hany : ∀ hi, TokS a.s hi s := by
+        intro hi
+        cases ha : a.s with
+        | none => exact hts
+        | top => trivial
+        | some live =>
+          have := htr
+          simp only [TokR, ha, TokS] at this
+          obtain ⟨p, hp, _⟩ := this
+          rw [hts] at hp; cases hp
+      rcases c3 with ⟨hcs, hres⟩ | ⟨hcs, hlen⟩
+      · simp only [breakOnEndOfInput, consumedByteCount, hts, hcs]
+        cases hl : c.isLast
+        · simp only [Bool.false_eq_true, if_false, adjustForNextInput, hts]
+          rw [if_neg (by omega)]
+          exact ⟨hinv, rfl, rfl, fun _ => ⟨hany _, hinv⟩⟩
+        · simp only [if_true]
+          rw [if_neg (by omega)]
+          exact ⟨hinv, rfl, rfl, fun h => by rw [hl] at h; cases h⟩
+      · simp only [breakOnEndOfInput, consumedByteCount, hts, hcs]
+        cases hl : c.isLast
+        · simp only [Bool.false_eq_true, if_false, adjustForNextInput, hts]
+          rw [if_neg (by omega)]
+          exact ⟨hinv, rfl, rfl, fun _ => ⟨hany _, hinv⟩⟩
+        · simp only [if_true]
+          rw [if_neg (by omega)]
+          exact ⟨hinv, rfl, rfl, fun h => by rw [hl] at h; cases h⟩
+    | some p =>
+      have hp := c2 p hts
+      have hcons : consumedByteCount inp (⟨c, .scanner s, x⟩ : M κ) = p := by
+        simp only [consumedByteCount, hts]
+        rcases c3 with ⟨hcs, _⟩ | ⟨hcs, _⟩
+        · simp only [hcs]; omega
+        · simp only [hcs]
+      simp only [breakOnEndOfInput, hcons]
+      cases hl : c.isLast
+      · simp only [Bool.false_eq_true, if_false, adjustForNextInput, hts]
+        rw [if_neg (by omega)]
+        refine ⟨hinv, rfl, rfl, fun _ => ⟨?_, hinv⟩⟩
+        dsimp only [TokR]
+        cases ha : a.s with
+        | none => have := htr; simp only [TokR, ha, TokS] at this; rw [hts] at this; cases this
+        | top => trivial
+        | some live =>
+          have := htr
+          simp only [TokR, ha, TokS] at this
+          obtain ⟨q, hq, hlive⟩ := this
+          rw [hts] at hq
+          simp only [Option.some.injEq] at hq
+          subst hq
+          refine ⟨0, rfl, fun h => ?_⟩
+          have := hlive h
+          dsimp only
+          simp only [alignNat]
+          split <;> omega
+      · simp only [if_true]
+        rw [if_neg (by omega)]
+        exact ⟨hinv, rfl, rfl, fun h => by rw [hl] at h; cases h⟩
+
+/-- a break keeps `TokB` when the abstract value is covered at the (unchanged) state -/
+theorem break_tokstep {t : Table} {cert : Cert} (m : M κ) (hp : BreakPre t W inp.length m) {a : Abs}
+    (ht : TokM a (m.c.nextPos - 1) m) {sd : StateDef} (hst : t.state? m.c.state = some sd)
+    (hent : (sd.enter.isEmpty || m.c.entered) = true)
+    (hcov : (breakOnEndOfInput inp m).1.c.isLast = false → covered (cert.at m.c.state) a = true) :
+    TokStep t cert (breakOnEndOfInput inp m) := by
+  obtain ⟨consumed, h1, _⟩ := breakOnEndOfInput_post (lo := 0) m hp
+  obtain ⟨b1, b2, b3, b4⟩ := break_tok m hp ht
+  unfold TokStep
+  rw [h1]
+  refine ⟨b1, fun hl => ⟨a, sd, by rw [b2]; exact hst, b4 hl, ?_⟩⟩
+  have : enterPending sd (breakOnEndOfInput inp m).1.c = false := by
+    simp only [enterPending, b3]
+    cases he : sd.enter.isEmpty <;> simp_all
+  rw [this, b2]
+  simp only [Bool.false_eq_true, if_false]
+  exact hcov hl
+
+theorem runSeq_fell_entered (s : ActSeq) (m : M κ) (h1 : (runSeq env inp s m).2.1 = none)
+    (h2 : (runSeq env inp s m).2.2 = .fell) : (runSeq env inp s m).1.c.entered = m.c.entered := by
+  unfold runSeq at h1 h2 ⊢
+  cases hc : (runCalls env inp s.calls m).2 with
+  | some sig => simp only [hc] at h1; cases h1
+  | none =>
+    simp only [hc] at h1 h2 ⊢
+    cases ht : s.trans with
+    | none => simp only [ht]; exact runCalls_entered _ _
+    | some t => simp only [ht] at h2; cases h2
+
+theorem runBody_fell_entered (b : Body) (m : M κ) (h1 : (runBody env inp b m).2.1 = none)
+    (h2 : (runBody env inp b m).2.2 = .fell) : (runBody env inp b m).1.c.entered = m.c.entered := by
+  cases b with
+  | seq s => exact runSeq_fell_entered s m h1 h2
+  | ite cnd x y =>
+    simp only [runBody] at *
+    split at h1
+    · cases h1
+    · rename_i hc
+      simp only [hc] at h2 ⊢
+      exact runSeq_fell_entered x m h1 h2
+    · rename_i hc
+      simp only [hc] at h2 ⊢
+      exact runSeq_fell_entered y m h1 h2
+
+/-- an arm that consumed a byte: from `SeqTok` to `TokStep` -/
+theorem armBody_tokstep {cert : Cert} (hs : SinkSafe env.ops W inp U1) (hw : Wf env.tbl) {isEof : Bool}
+    (b : Body) (m : M κ) {sd : StateDef} (hst : env.tbl.state? m.c.state = some sd)
+    (hent : (sd.enter.isEmpty || m.c.entered) = true) (hm : MInvA W inp.length lo true true m)
+    (hok : ∀ s ∈ b.seqs, seqOK true s = true ∧ s.targetOK env.tbl.states.length = true ∧
+      ∀ x, s.trans = some (.reconsume x) → env.tbl.rank x < env.tbl.rank m.c.state)
+    (htok : SeqTok env.tbl cert true isEof m.c.state (m.c.nextPos - 1) (runBody env inp b m)) :
+    TokStep env.tbl cert ((runBody env inp b m).1, (runBody env inp b m).2.1) := by
+  obtain ⟨p1, p2, p3⟩ := runBody_post (n0 := 0) hs hw b m hm hok (Nat.zero_le _)
+  obtain ⟨q1, q2, q3, q4⟩ := htok
+  unfold TokStep
+  refine ⟨q2, ?_⟩
+  (try dsimp only)
+  cases hsig : (runBody env inp b m).2.1 with
+  | some sig =>
+    (try dsimp only)
+    cases sig with
+    | err e => exact q1 e hsig
+    | directive d bm => trivial
+    | endOfInput k => exact absurd (p1 _ hsig) (by simp [ActSigOK])
+  | none =>
+    (try dsimp only)
+    cases hend : (runBody env inp b m).2.2 with
+    | transitioned => exact q3 hsig hend
+    | fell =>
+      obtain ⟨a', ta, hc⟩ := q4 hsig hend
+      simp only [if_true] at hc
+      obtain ⟨hfr, _⟩ := p3 hsig hend
+      have hE := runBody_fell_entered b m hsig hend
+      obtain ⟨a1, _⟩ := hm
+      refine ⟨a'.bump, sd, by rw [hfr.2.1]; exact hst, ?_, ?_⟩
+      · rw [hfr.1]
+        have : m.c.nextPos = m.c.nextPos - 1 + 1 := by omega
+        rw [this]
+        exact ⟨TokR.bump ta.1, ta.2⟩
+      · have : enterPending sd (runBody env inp b m).1.c = false := by
+          simp only [enterPending, hE]
+          cases he : sd.enter.isEmpty <;> simp_all
+        rw [this, hfr.2.1]
+        simp only [Bool.false_eq_true, if_false]
+        exact hc
+
 end
 end LolHtml.Model
